@@ -327,3 +327,11 @@ mut("c02_output_matrix_row_stack", "C02", "engine.py", '''        values = tuple
 
     @property
     def values(self)''', "Engine.output_values returns the rows of batches of 3 or more in reverse order")
+mut("d5_revert_resolution1", "C02", "defuzzifier.py", '''        x = np.atleast_2d(Op.midpoints(minimum, maximum, self.resolution))
+        y = np.atleast_2d(term.membership(x))
+        if x.shape[1] == 1:
+            # single sample (resolution=1): the squeezed memberships of a batch are rows, not samples
+            y = y.reshape(-1, 1)
+        z = ((x * y).sum(axis=1) / y.sum(axis=1)).squeeze()''', '''        x = np.atleast_2d(Op.midpoints(minimum, maximum, self.resolution))
+        y = np.atleast_2d(term.membership(x))
+        z = ((x * y).sum(axis=1) / y.sum(axis=1)).squeeze()''', "defect D5 (Centroid only) as found at the pinned commit")
